@@ -454,4 +454,79 @@ theorem filename_default_injective (f g : Fields) (hs : f.slug = g.slug)
   exact List.append_cancel_right h
 
 
+/-! ### sequences of calls against the directory: no accepted call replaces a file -/
+
+theorem generate_ok_not_taken (m : LMap) (a : GenArgs) (r : Rev) (h : generateRevision m a = .ok r) :
+    a.fileTaken = false := by
+  unfold generateRevision at h
+  split at h
+  · simp at h
+  · split at h
+    · simp at h
+    · split at h
+      · split at h
+        · simp at h
+        · rename_i hf; simpa using hf
+      · simp at h
+
+theorem genCall_ok_not_taken (m : LMap) (a : GenArgs) (x : Rev × LMap) (h : genCall m a = .ok x) :
+    a.fileTaken = false := by
+  unfold genCall at h
+  cases hg : generateRevision m a with
+  | error e => simp [hg, bind, Except.bind] at h
+  | ok r => exact generate_ok_not_taken m a r hg
+
+/-- one call: the files that were there stay, at most the call's own new path is added, and it was not there -/
+theorem stepCallF_files (st : DirState) (a : GenArgs) :
+    (stepCallF st a).files = st.files ∨
+      ∃ f, a.file = some f ∧ f ∉ st.files ∧ (stepCallF st a).files = st.files ++ [f] := by
+  unfold stepCallF
+  cases hg : genCall st.map (a.inDir st.files) with
+  | error e => left; rfl
+  | ok x =>
+    obtain ⟨r, m'⟩ := x
+    cases hf : a.file with
+    | none => left; simp [hf]
+    | some f =>
+      right
+      refine ⟨f, rfl, ?_, by simp [hf]⟩
+      have := genCall_ok_not_taken _ _ _ hg
+      simp only [GenArgs.inDir, hf, Bool.or_eq_false_iff, decide_eq_false_iff_not] at this
+      exact this.2
+
+/-- **No accepted call ever replaces a revision file**: along every sequence of `generate_revision` /
+`revision` / `merge` calls against a directory, every file that was present stays present, the paths
+stay pairwise distinct, and each accepted call whose path is known adds exactly that path, which was
+not there before (the repair of C17-F17 as an invariant of the whole sequence). -/
+theorem runCallsF_files (calls : List GenArgs) : ∀ (st : DirState), st.files.Nodup →
+    (runCallsF st calls).files.Nodup ∧ ∀ f ∈ st.files, f ∈ (runCallsF st calls).files := by
+  induction calls with
+  | nil => intro st hn; exact ⟨hn, fun f hf => hf⟩
+  | cons a rest ih =>
+    intro st hn
+    have hstep : (stepCallF st a).files.Nodup ∧ ∀ f ∈ st.files, f ∈ (stepCallF st a).files := by
+      rcases stepCallF_files st a with h | ⟨f, _, hnot, h⟩
+      · rw [h]; exact ⟨hn, fun f hf => hf⟩
+      · rw [h]
+        refine ⟨?_, fun g hg => List.mem_append_left _ hg⟩
+        rw [List.nodup_append]
+        refine ⟨hn, by simp, ?_⟩
+        intro x hx y hy
+        simp only [List.mem_singleton] at hy
+        subst hy
+        intro e; subst e; exact hnot hx
+    obtain ⟨h1, h2⟩ := ih (stepCallF st a) hstep.1
+    unfold runCallsF at h1 h2 ⊢
+    simp only [List.foldl_cons]
+    exact ⟨h1, fun f hf => h2 f (hstep.2 f hf)⟩
+
+/-- the second of the two calls `--rev-id a_b -m c`, `--rev-id a -m "b c"` (one path) is refused -/
+example : (match Model.Rev.load [] with
+    | .ok m =>
+      let st := runCallsF { hist := [], map := m, files := [] }
+        [{ revid := "a_b", heads := ["base"], splice := false, labels := [], deps := [], file := some "versions/a_b_c.py" },
+         { revid := "a", heads := ["a_b"], splice := false, labels := [], deps := [], file := some "versions/a_b_c.py" }]
+      decide (st.files = ["versions/a_b_c.py"]) && decide (st.hist.map (·.id) = ["a_b"])
+    | .error _ => false) = true := by decide +kernel
+
 end C17
